@@ -176,6 +176,8 @@ fn g_planar(rng: &mut Rng, _tier: Tier) -> Case {
             continue;
         }
         let fovy = if deg { (fovy_rad.to_degrees() * 1024.0).round() / 1024.0 } else { fovy_rad };
+        // planar() states no order for the two planes
+        let (near, far) = if rng.chance(1, 4) { (far, near) } else { (near, far) };
         c.push_f(&[fovy, aspect, height, near, far]);
         c.push_k(&[deg as i64]);
         c.nontrivial = true;
@@ -251,7 +253,11 @@ pub fn native(cfg: &RunCfg, extra: &mut Extra) {
                     10 => ("frustum left > right", true, catch(|| frustum(r, l, b, tp, near, far).is_finite())),
                     11 => ("frustum bottom > top", true, catch(|| frustum(l, r, tp, b, near, far).is_finite())),
                     12 => ("frustum near > far", true, catch(|| frustum(l, r, b, tp, far, near).is_finite())),
-                    13 => ("planar valid", false, catch(|| planar(Rad(fovy.min(t(2.9))), aspect, h, near, far).is_finite())),
+                    13 => {
+                        // both plane orders are accepted (positive fovy puts the focal point at negative depth)
+                        let (n2, f2) = if rng.bool() { (near, far) } else { (far, near) };
+                        ("planar valid", false, catch(|| planar(Rad(fovy.min(t(2.9))), aspect, h, n2, f2).is_finite()))
+                    }
                     14 => ("planar |fovy| >= pi", true, catch(|| planar(Rad(if rng.bool() { pi_t + fovy } else { -(pi_t + fovy) }), aspect, h, near, far).is_finite())),
                     15 => ("planar height < 0", true, catch(|| planar(Rad(fovy.min(t(2.9))), aspect, -h, near, far).is_finite())),
                     16 => ("planar aspect = 0", true, catch(|| planar(Rad(fovy.min(t(2.9))), t(0.0), h, near, far).is_finite())),
@@ -260,7 +266,8 @@ pub fn native(cfg: &RunCfg, extra: &mut Extra) {
                         // negative fovy puts the focal point at +h/(2 tan(|fovy|/2)); bracket it
                         let fv = fovy.min(t(2.9));
                         let focal = h / (t(2.0) * (fv / t(2.0)).tan());
-                        ("planar focal point between the planes", true, catch(|| planar(Rad(-fv), aspect, h, focal * t(0.5), focal * t(2.0)).is_finite()))
+                        let (n2, f2) = if rng.bool() { (focal * t(0.5), focal * t(2.0)) } else { (focal * t(2.0), focal * t(0.5)) };
+                        ("planar focal point between the planes", true, catch(|| planar(Rad(-fv), aspect, h, n2, f2).is_finite()))
                     }
                     _ => {
                         // fovy = 0: orthographic limit, exact with power-of-two parameters
